@@ -1,0 +1,35 @@
+//go:build verif
+
+// Contracts for the deductive verifier under /verif (foxvc): the request
+// Context (properties C12, C19, C14). Comments only.
+
+package fox
+
+//@ package fox
+
+//@ -- ---------------------------------------------------------------- C12: reset variants
+
+//@ func (*cTx).reset props C12
+//@   requires c != nil && c.params != nil
+//@   requires wFinal[w] == 0 && wBody[w] == 0
+//@   modifies c.rec, c.req, c.w, c.cachedQuery, c.scope, *c.params
+//@   ensures request: c.req == r && c.cachedQuery == nil && c.scope == RouteHandler
+//@   ensures writer: c.w == box(&c.rec) && c.rec.ResponseWriter == w && c.rec.size == -1 && c.rec.status == 200 && !c.rec.hijacked && recINV(&c.rec)
+//@   ensures params: len(*c.params) == 0
+
+//@ func (*cTx).resetNil props C12
+//@   requires c != nil && c.params != nil
+//@   modifies c.req, c.w, c.cachedQuery, c.route, *c.params
+//@   ensures c.req == nil && c.w == nil && c.cachedQuery == nil && c.route == nil && len(*c.params) == 0
+
+//@ func (*cTx).resetWithWriter props C12
+//@   requires c != nil && c.params != nil
+//@   modifies c.req, c.w, c.tsr, c.cachedQuery, c.route, c.scope, *c.params
+//@   ensures c.req == r && c.w == w && !c.tsr && c.cachedQuery == nil && c.route == nil && c.scope == RouteHandler && len(*c.params) == 0
+
+//@ -- ---------------------------------------------------------------- C19: resolver selection at request time
+
+//@ func (*cTx).ClientIP props C19
+//@   requires c != nil && c.fox != nil && c.fox.clientip != nil && (c.route != nil ==> c.route.clientip != nil)
+//@   ensures special: c.route == nil ==> result0 == resolverIP(c.fox.clientip, box(c), hCalls) && result1 == resolverErr(c.fox.clientip, box(c), hCalls)
+//@   ensures matched: c.route != nil ==> result0 == resolverIP(c.route.clientip, box(c), hCalls) && result1 == resolverErr(c.route.clientip, box(c), hCalls)
